@@ -9,7 +9,7 @@
      (b"" special case; fastbencode.bdecode; .items())
    breezy/tag.py     InterTags.merge / _merge_to           merge_inter
    breezy/tag.py     MemoryTags.merge_to                   merge_memsrc
-   breezy/git/branch.py InterTagsFromGitToLocalGit.merge   merge_memsrc (same shape: no master, no shortcut)
+   breezy/git/branch.py InterTagsFromGitToLocalGit.merge   merge_nomaster (no master, no shortcut)
    breezy/git/branch.py InterTagsFromGitToNonGit.merge     merge_inter  (the empty-source shortcut is unobservable)
 
    Tag names are modelled as their utf-8 BYTE STRINGS (str.encode/bytes.decode
@@ -117,13 +117,36 @@ Definition deserialize (s : bytes) : option tagdict :=
 Definition conflict : Type := (bytes * bytes * option bytes)%type.
 Definition reconcileB := reconcile_tags bytes bytes bytes_eqb bytes_eqb.
 
-(* MemoryTags.merge_to (and, with refs for dicts, InterTagsFromGitToLocalGit.merge):
-     result, updates, conflicts = _reconcile_tags(source_dict, dest_dict, overwrite, selector)
-     if result != dest_dict: to_tags._set_tag_dict(result)
-   a master branch of the destination is NOT touched *)
-Definition merge_memsrc (src dst : tagdict) (master : option tagdict) (ov : bool) (sel : option (bytes -> bool))
+Definition conf_eqb (a b : conflict) : bool :=
+  let '(k1, v1, w1) := a in let '(k2, v2, w2) := b in
+  bytes_eqb k1 k2 && bytes_eqb v1 v2 && opt_eqb bytes_eqb w1 w2.
+
+(* InterTagsFromGitToLocalGit.merge (the reconcile loop on refs; git branches have no master):
+     result, updates, conflicts = reconcile(source, dest); result written; no master step.
+   This was also MemoryTags.merge_to BEFORE commit b75814f (finding C24-memorytags-merge-ignores-master). *)
+Definition merge_nomaster (src dst : tagdict) (master : option tagdict) (ov : bool) (sel : option (bytes -> bool))
   : tagdict * option tagdict * tagdict * list conflict :=
   let '(r, u, c) := reconcileB src dst ov sel in (r, master, u, c).
+Definition merge_memsrc_old := merge_nomaster.
+
+(* MemoryTags.merge_to (since b75814f):
+     result, updates, conflicts = _reconcile_tags(source_dict, dest_dict, overwrite, selector)
+     if result != dest_dict: to_tags._set_tag_dict(result)
+     master = to_tags.branch.get_master_branch() unless ignore_master (or no branch)
+     if master: extra = InterTags._merge_to(master.tags, ...); updates.update(extra_updates)
+                conflicts += [c for c in extra_conflicts if c not in conflicts] *)
+Definition merge_memsrc (src dst : tagdict) (master : option tagdict) (ignore_master ov : bool)
+                        (sel : option (bytes -> bool))
+  : tagdict * option tagdict * tagdict * list conflict :=
+  let '(r1, u1, c1) := reconcileB src dst ov sel in
+  match master with
+  | Some m =>
+      if ignore_master then (r1, Some m, u1, c1)
+      else let '(r2, u2, c2) := reconcileB src m ov sel in
+           (r1, Some r2, dict_update bytes_eqb u1 u2,
+            c1 ++ filter (fun c => negb (existsb (conf_eqb c) c1)) c2)
+  | None => (r1, None, u1, c1)
+  end.
 
 (* InterTags.merge:  empty source -> nothing; _merge_to(target); if there is a master and
    not ignore_master: _merge_to(master.tags), updates.update(extra), conflicts += extra *)
@@ -161,9 +184,6 @@ Definition conf_ltb (a b : conflict) : bool :=
   let '(k1, v1, w1) := a in let '(k2, v2, w2) := b in
   bytes_ltb k1 k2 ||
   (bytes_eqb k1 k2 && (bytes_ltb v1 v2 || (bytes_eqb v1 v2 && opt_ltb w1 w2))).
-Definition conf_eqb (a b : conflict) : bool :=
-  let '(k1, v1, w1) := a in let '(k2, v2, w2) := b in
-  bytes_eqb k1 k2 && bytes_eqb v1 v2 && opt_eqb bytes_eqb w1 w2.
 (* sorted(set(conflicts)) *)
 Fixpoint insert_conf (x : conflict) (l : list conflict) : list conflict :=
   match l with
@@ -217,10 +237,17 @@ Definition transfer_obs (ds : dest_store) (out : tagdict * option tagdict * tagd
   | _, _ => OE "error"
   end.
 
-(* inter = true: InterTags.merge / InterTagsFromGitToNonGit.merge; false: MemoryTags.merge_to /
-   InterTagsFromGitToLocalGit.merge *)
-Definition run_transfer (inter : bool) (ds : dest_store) (src dst : tagdict) (master : option tagdict)
+(* which transfer routine runs *)
+Inductive merge_kind : Type :=
+| MInter      (* InterTags.merge / InterTagsFromGitToNonGit.merge *)
+| MMem        (* MemoryTags.merge_to *)
+| MGitGit.    (* InterTagsFromGitToLocalGit.merge *)
+
+Definition run_transfer (mk : merge_kind) (ds : dest_store) (src dst : tagdict) (master : option tagdict)
                         (ignore_master ov : bool) (sel : option (bytes -> bool)) : obs :=
   transfer_obs ds
-    (if inter then merge_inter src dst master ignore_master ov sel
-     else merge_memsrc src dst master ov sel).
+    match mk with
+    | MInter => merge_inter src dst master ignore_master ov sel
+    | MMem => merge_memsrc src dst master ignore_master ov sel
+    | MGitGit => merge_nomaster src dst master ov sel
+    end.
